@@ -163,14 +163,25 @@ package parser
 
 //@ pure readfailed(sc) = sc != nil && scdone(sc) && scerr(sc) != nil
 
+// tokinv: once the scanner has produced a non-empty token (its last token is empty before the first scan), the field parser has either started on it or still
+// holds it untouched - so "started or data left" at the head of an iteration means an earlier token exists.
+//@ pure tokinv(r) = sctok(r.inputScanner) != "" ==> r.fieldScanner.started || r.fieldScanner.data == sctok(r.inputScanner)
+
 //@ func Parser.Next
 //@   requires r != nil && f != nil && r.fieldScanner != nil && r.inputScanner != nil && !r.fieldScanner.keepComments
+//@   requires token_in_progress: tokinv(r)
 //@   modifies r.inputScanner, r.fieldScanner.data, r.fieldScanner.err, r.fieldScanner.started, r.fieldScanner.removeBOM, scannercell(old(r.inputScanner)), f.Name, f.Value
 //@   ensures field_is_valid: result ==> validname(f.Name) && f.Name != ":" && singleLine(f.Value)
 //@   ensures false_only_at_end: !result ==> r.fieldScanner.err != nil || r.inputScanner == nil || readfailed(r.inputScanner)
 //@   ensures scanner_dropped_only_at_clean_end: r.inputScanner == nil ==> !result && scdone(old(r.inputScanner)) && scerr(old(r.inputScanner)) == nil
 //@   ensures scanner_kept_otherwise: r.inputScanner != nil ==> r.inputScanner == old(r.inputScanner)
 //@   ensures comments_stay_off: !r.fieldScanner.keepComments
+//@   ensures token_in_progress_kept: r.inputScanner != nil ==> tokinv(r)
+//@   ensures bom_option_never_switched_back_on: !old(r.fieldScanner.removeBOM) ==> !r.fieldScanner.removeBOM
+//@   invariant 0 token_in_progress: tokinv(r)
+//@   invariant 0 bom_option_only_switched_off: !old(r.fieldScanner.removeBOM) ==> !r.fieldScanner.removeBOM
+//@   step 0 later_tokens_are_installed_verbatim: (prev(r.fieldScanner.started) || prev(r.fieldScanner.data) != "") && !scdone(old(r.inputScanner)) ==> r.fieldScanner.data == sctok(old(r.inputScanner)) && !r.fieldScanner.removeBOM
+//@   step 0 first_token_loses_only_an_armed_bom: !scdone(old(r.inputScanner)) && r.fieldScanner.data != sctok(old(r.inputScanner)) ==> prev(r.fieldScanner.removeBOM) && r.fieldScanner.data == substr(sctok(old(r.inputScanner)), 3, len(sctok(old(r.inputScanner))))
 //@   invariant 0 same_scanners: r.inputScanner == old(r.inputScanner) && r.inputScanner != nil && r.fieldScanner == old(r.fieldScanner) && !r.fieldScanner.keepComments
 //@   invariant 0 still_reading: !scdone(r.inputScanner) || scerr(r.inputScanner) == old(scerr(r.inputScanner))
 
@@ -184,7 +195,7 @@ package parser
 //@ func Parser.Buffer
 //@   requires r != nil && r.inputScanner != nil && !scstarted(r.inputScanner)
 //@   modifies scannercell(r.inputScanner)
-//@   ensures limit_forwarded: scmax(r.inputScanner) == maxSize && !scstarted(r.inputScanner) && scdone(r.inputScanner) == old(scdone(r.inputScanner)) && scerr(r.inputScanner) == old(scerr(r.inputScanner))
+//@   ensures limit_forwarded: scmax(r.inputScanner) == maxSize && !scstarted(r.inputScanner) && scdone(r.inputScanner) == old(scdone(r.inputScanner)) && scerr(r.inputScanner) == old(scerr(r.inputScanner)) && sctok(r.inputScanner) == old(sctok(r.inputScanner))
 
 // Parser.split is the split function handed to the scanner: splitFunc's contract carried through unchanged, plus
 // the rule that makes "the BOM is removed only at offset 0 of the stream" hold: the scanner's windows start at
@@ -208,7 +219,7 @@ package parser
 //@   ensures rest_of_field_parser_untouched: r.fieldScanner.data == old(r.fieldScanner.data) && r.fieldScanner.started == old(r.fieldScanner.started) && r.fieldScanner.err == old(r.fieldScanner.err)
 
 //@ func New
-//@   ensures nothing_consumed_yet: !result.consumed
+//@   ensures nothing_consumed_yet: !result.consumed && sctok(result.inputScanner) == ""
 //@   ensures scanner_cuts_with_the_parsers_split: scsplitis(result.inputScanner, "parser.Parser.split") && scsplitrecv(result.inputScanner) == result
 //@   ensures fresh_parser: result != nil && fresh(result) && fresh(result.fieldScanner) && result.inputScanner != nil && result.fieldScanner != nil && !scstarted(result.inputScanner) && !scdone(result.inputScanner) && scmax(result.inputScanner) == 0
 //@   ensures field_parser_configured: result.fieldScanner.removeBOM && !result.fieldScanner.keepComments && result.fieldScanner.err == nil && result.fieldScanner.data == "" && !result.fieldScanner.started
